@@ -1,5 +1,6 @@
 import GrinVerif.Drv.Common
 import GrinVerif.Model.Seg
+import GrinVerif.Drv.SegZipD
 /-! Driver glue for the `seg` domain (property C16): the model of `segment.rs` run with the real
 hash shapes (BLAKE2b in the driver) on the views / segments / bitmaps the harness prints.
 
@@ -188,6 +189,8 @@ def handle (st : St) (args : List String) (impl : String) : St × Verdict :=
       let toks := (d.want 15).map fun x => s!"{x.1}:{x.2.height}:{x.2.idx}"
       (st, cmpModel ("[" ++ ",".intercalate toks ++ "]") impl)
     | none => (st, .unknown)
+  -- the state-archive path (`Model/SegZip.lean`, glue in `Drv/SegZipD.lean`)
+  | "zip" :: rest => (st, SegZipD.handle rest impl)
   | _ => (st, .unknown)
 
 end GV.Drv.SegD
